@@ -37,26 +37,11 @@ MaxLdeLog(f) == IF f = "t257" THEN 7 ELSE TwoAdicityOf(f)
 ExtsOf(f) == CASE f \in {"f64", "f62"} -> {1, 2, 3} [] f = "f128" -> {1, 2} [] OTHER -> {1}
 
 (***************************************************************************)
-(* Derived quantities (the schedule)                                       *)
+(* Derived quantities (the schedule); declared degrees are in AirFamily     *)
 (***************************************************************************)
 L(c) == 2 ^ c.log_len
 Lde(c) == L(c) * c.blowup
 HasAux(c) == c.aux # <<>>
-
-\* declared degrees: <<base, number of cycles, sum over cycles of (L/c)(c-1)>> per constraint
-CycleDeg(c, k) == (L(c) \div c.pcyc[k]) * (c.pcyc[k] - 1)
-MainEvalDegree(c, j) ==
-  LET sh == c.shapes[j] IN
-  ShapeBase(sh) * (L(c) - 1)
-    + (IF ShapeNumCycles(sh) >= 1 THEN CycleDeg(c, 1) ELSE 0)
-    + (IF ShapeNumCycles(sh) >= 2 THEN CycleDeg(c, 2) ELSE 0)
-MainMinBlowup(c, j) == Max(NextPow2(ShapeBase(c.shapes[j]) + ShapeNumCycles(c.shapes[j]) - 1), 2)
-AuxEvalDegree(c) == 2 * (L(c) - 1)
-
-RECURSIVE MaxOver(_, _, _)
-MaxOver(F(_), n, i) == IF i > n THEN 0 ELSE Max(F(i), MaxOver(F, n, i + 1))
-CeBlowup(c) == LET m(j) == MainMinBlowup(c, j) IN Max(MaxOver(m, c.width, 1), IF HasAux(c) THEN 2 ELSE 0)
-MaxEvalDegree(c) == LET e(j) == MainEvalDegree(c, j) IN Max(MaxOver(e, c.width, 1), IF HasAux(c) THEN AuxEvalDegree(c) ELSE 0)
 
 \* the composition polynomial has degree MaxEvalDegree - (L - exemptions), hence that many + 1
 \* coefficients, L per column
@@ -73,12 +58,6 @@ RemainderLen(c) == L(c) \div (c.fold ^ FriLayers(c))
 (* Supported(cfg): every constructor accepts it and the FRI schedule is    *)
 (* well formed (conservative: only such configurations are claimed)        *)
 (***************************************************************************)
-ExemptionsOk(c) ==
-  /\ c.exemptions >= 1
-  /\ c.exemptions <= L(c) \div 2 + 1
-  /\ \A j \in 1..c.width : c.exemptions <= (L(c) * CeBlowup(c) - 1) + L(c) - MainEvalDegree(c, j)
-  /\ HasAux(c) => c.exemptions <= (L(c) * CeBlowup(c) - 1) + L(c) - AuxEvalDegree(c)
-
 \* degree truncation rule: the number of coefficients L must be divisible by the folding factor at
 \* every layer
 FriOk(c) == /\ c.fold ^ FriLayers(c) <= L(c)
